@@ -390,4 +390,19 @@ funclit 0 in (s *SweepingProvider) handleReprovide()
   ghost at call(Acquire): $acq = ($ret0 == nil)
   ghost at before call(batchReprovide): assert($acq && $arg0 == currentPrefix)
   ghost at before call(Release): assert($acq)
+
+# ---- sending the keys of one peer (C17) -------------------------------------------
+# every key of every batch is sent to that peer, in order, with the key set on
+# the shared message, until the provider closes or the peer is given up on: a
+# nil result means every key was attempted and the peer was not given up on
+func (s *SweepingProvider) provideKeysToPeer(p peer.ID, batches [][]mh.Multihash, pmes *pb.Message) error
+  props C17
+  ghostvar $sent int = 0
+  ghostvar $fail int = 0
+  modifies *
+  loop 0 invariant sentKeys == $sent && errCount == $fail && 0 <= errStreak && errStreak <= errCount && errCount <= sentKeys
+  loop 1 invariant sentKeys == $sent && errCount == $fail && 0 <= errStreak && errStreak <= errCount && errCount <= sentKeys
+  ghost at before call(SendMessage): assert($arg1 == p && $arg2 == pmes && pmes.Key == mh)
+  ghost at call(SendMessage): $sent = $sent + 1; $fail = $fail + ite($ret0 != nil, 1, 0)
+  ghost at before call(addProvidedRecords): assert($arg0 == $sent - $fail)
 @*/
